@@ -110,13 +110,12 @@ def fault_label(sc):
     return "no-fault"
 
 
-def run_scenario(col: Collector, sc, shard_no, slot, index, rng, port_base=12000, prop="C05"):
+def _launch(sc, shard_no, slot, index, rng, port_base):
     from vlib.common.driver import child_env, PY
     spec, sc = build_spec(sc, shard_no, slot, index, rng, port_base)
     fd, path = tempfile.mkstemp(prefix="v05spec", suffix=".json")
     with os.fdopen(fd, "w") as f:
         json.dump(spec, f)
-    label = fault_label(sc)
     try:
         p = subprocess.Popen([PY, "-m", "vlib.realcluster", path], env=child_env(), cwd=os.path.dirname(os.path.dirname(os.path.dirname(os.path.abspath(__file__)))),
                              stdout=subprocess.PIPE, stderr=subprocess.DEVNULL, start_new_session=True, text=True)
@@ -147,6 +146,21 @@ def run_scenario(col: Collector, sc, shard_no, slot, index, rng, port_base=12000
     for ln in out.splitlines():
         if ln.startswith("RESULT "):
             res = json.loads(ln[7:])
+    return spec, sc, res
+
+
+def run_scenario(col: Collector, sc, shard_no, slot, index, rng, port_base=12000, prop="C05"):
+    import copy
+    state = rng.getstate()
+    spec, sc2, res = _launch(copy.deepcopy(sc), shard_no, slot, index, rng, port_base)
+    if res is None or res.get("outcome") in ("watchdog", "harness-error") or (res.get("exception") and res["exception"][0] == "ZMQError"):
+        # no verdict (only the wall clock spoke, or the harness could not start): the same scenario is run once more before
+        # the case is given up as inconclusive
+        col.count("scenarios_rerun_after_inconclusive_attempt")
+        rng.setstate(state)
+        spec, sc2, res = _launch(copy.deepcopy(sc), shard_no, slot, index, rng, port_base)
+    sc = sc2
+    label = fault_label(sc)
     wit = {"scenario": {k: v for k, v in sc.items()}, "hosts": [(h["id"], h["workers"]) for h in spec["hosts"]], "faults": spec["faults"], "kill": spec.get("kill"),
            "result": {k: v for k, v in (res or {}).items() if k != "events"}}
     col.case(shape=digest(label, sc["shape"], sc.get("role"), sc.get("host"), sc.get("random_job", False)),
